@@ -211,4 +211,61 @@ MUTANTS = {
         "props": ["C17"],
         "edits": [(CF, '    if not code.co_filename or code.co_filename[0] == "<":', '    if not code.co_filename:')],
     },
+    "c03_subclass_iteration": {
+        "props": ["C03"],
+        "edits": [(T, "    if typ is list:\n", "    if issubclass(typ, list):\n")],
+    },
+    "c03_dict_subclass": {
+        "props": ["C03"],
+        "edits": [(T, "    elif typ is dict:\n", "    elif issubclass(typ, dict) and typ is not defaultdict:\n")],
+    },
+    "c03_getattr_in_mro": {
+        "props": ["C03"],
+        "edits": [(TR, "    val = inspect.getattr_static(obj, code.co_name, None)", "    val = getattr(obj, code.co_name, None)")],
+    },
+    "c03_no_try": {
+        "props": ["C03"],
+        "edits": [(TR, "        except Exception:\n            logger.exception(\"Failed collecting trace\")", "        except KeyError:\n            logger.exception(\"Failed collecting trace\")")],
+    },
+    "c03_restore_none": {
+        "props": ["C03"],
+        "edits": [(TR, "        sys.setprofile(old_trace)\n", "        sys.setprofile(None)\n")],
+    },
+    "c03_flush_outside_finally": {
+        "props": ["C03"],
+        "edits": [(TR, """    try:
+        yield
+    finally:
+        sys.setprofile(old_trace)
+        try:
+            logger.flush()
+        except Exception:
+            # like a failing log(), a failing flush() must not reach the traced program
+            logging.getLogger(__name__).exception("Failed flushing traces")
+""", """    try:
+        yield
+    finally:
+        sys.setprofile(old_trace)
+    try:
+        logger.flush()
+    except Exception:
+        logging.getLogger(__name__).exception("Failed flushing traces")
+""")],
+    },
+    "c03_isinstance_regress": {
+        "props": ["C03"],
+        "edits": [(T, "    if issubclass(typ, type):\n        return Type[obj]", "    if isinstance(obj, type):\n        return Type[obj]")],
+    },
+    "c03_has_code_dynamic": {
+        "props": ["C03"],
+        "edits": [(TR, '        func = inspect.getattr_static(func, "__wrapped__", None)', '        func = getattr(func, "__wrapped__", None)')],
+    },
+    "c03_flush_uncontained": {
+        "props": ["C03"],
+        "edits": [(TR, "        except Exception:\n            # like a failing log()", "        except KeyError:\n            # like a failing log()")],
+    },
+    "c03_repr_in_log": {
+        "props": ["C03"],
+        "edits": [(TR, "        typ = get_type(arg, max_typed_dict_size=self.max_typed_dict_size)\n        last_opcode", "        typ = get_type(arg, max_typed_dict_size=self.max_typed_dict_size)\n        logger.debug(\"returned %r\", arg) if arg else None\n        last_opcode")],
+    },
 }
